@@ -32,10 +32,12 @@ def wordsOut (ps : List ParaObs) : List Str :=
     | .s v => words v
     | .emptyList => []
 
-/-- every word of the input occurs equally often in the output, and no word is invented -/
-def holdsOn (_t : Input) (o : Obs) : Bool :=
+/-- every word of the input occurs equally often in the output, and no word is invented. The words of the input are
+those of its field values and free-text lines as the text itself spells them (the reading of the text that `Props.C05.sound`
+proves correct), and, to the same effect, those of the field groups the implementation reports. -/
+def holdsOn (t : Input) (o : Obs) : Bool :=
   match o.paras with
-  | .ok ps => sameMultiset (wordsIn o.groups) (wordsOut ps)
+  | .ok ps => sameMultiset (wordsIn (Props.C05.model t)) (wordsOut ps) && sameMultiset (wordsIn o.groups) (wordsOut ps)
   | .error _ => true     -- raising is C07's concern
 
 def decO : Val → Option Obs
